@@ -11,4 +11,5 @@ LEVEL_NOTE = ('Trusted: pyvc encoding (floats as reals, math.floor/ceil as mathe
               '(one-line dictionary updates through a defaultdict), VarzAggregator.Aggregate (sum per service) and _Downsample; monotonicity of the percentile in pct was attempted as a two-run lemma and left out because the mixed exact/interpolated case stays undecided in z3 and cvc5.')
 ASSUMPTIONS = ['field values of a Source compare by value (strings)', 'reals for floats']
 TRUSTED = []
-BOUNDED = []
+BOUNDED = [dict(name='aggregated-percentiles-monotone-and-in-range', replay_unit='VarzAggregator.Aggregate',
+                bound='reservoirs of 1..6 samples from a fixed pool in given/ascending/descending order, 1..3 reservoirs per service; real RecordPercentileSample + Aggregate')]
